@@ -90,6 +90,8 @@ type gen struct {
 	logic uint64
 	txns  []*vtxn
 	nval  int
+	// gcHeavy: GC is drawn about five times as often as usual (a sixth of the runs)
+	gcHeavy bool
 }
 
 func (g *gen) ts() uint64 {
@@ -138,7 +140,11 @@ func (g *gen) next() Cmd {
 		return out
 	}
 	for {
-		switch x := r.Intn(100); {
+		x := r.Intn(100)
+		if g.gcHeavy && r.Intn(7) == 0 {
+			x = 85 // runs that collect garbage often: histories of several versions per key meet many safe points
+		}
+		switch {
 		case x < 20: // prewrite
 			if t.gcd {
 				continue
@@ -315,7 +321,7 @@ func (Engine) Generate(cfg simkit.RunConfig) (any, bool) {
 		return enumScenario(cfg)
 	}
 	r := simkit.Rand(cfg.Seed, "gen")
-	g := &gen{r: r, phys: 1000}
+	g := &gen{r: r, phys: 1000, gcHeavy: simkit.Rand(cfg.Seed, "gc-heavy").Intn(6) == 0}
 	n := 4 + r.Intn(24)
 	if cfg.Mode == "short" {
 		n = 2 + r.Intn(5)
@@ -325,6 +331,55 @@ func (Engine) Generate(cfg simkit.RunConfig) (any, bool) {
 		cmd Cmd
 	}
 	var slots []slot
+	if g.gcHeavy {
+		// a history for the collector: two or three finished transactions on one key, one after the other - a put, a
+		// delete, a Lock record (an Op_Lock prewrite, or a pessimistic lock committed without prewrite), a rollback
+		// marker - then a GC at a safe point between or above them and a read at / above it. Delivered in order, in
+		// front of the random part (which goes on with the same keys).
+		k := keys[r.Intn(len(keys))]
+		var cts []uint64
+		at := -100.0
+		add := func(c Cmd) { slots = append(slots, slot{at, c}); at++ }
+		for j, nt := 0, 2+r.Intn(2); j < nt; j++ {
+			t := &vtxn{start: g.ts(), prim: k, mine: []string{k}, ended: true}
+			g.txns = append(g.txns, t)
+			ti := len(g.txns) - 1
+			kind := []string{"put", "put", "del", "lock", "plock", "rollback"}[r.Intn(6)]
+			if j == 0 {
+				kind = "put"
+			}
+			switch kind {
+			case "plock":
+				t.pess = true
+				t.fts = g.ts()
+				add(Cmd{Op: "plock", Txn: ti, Start: t.start, Prim: k, TTL: 3000, TS: t.fts, Keys: []string{k}, MinC: t.fts + 1, NotEx: []bool{false}})
+			case "rollback":
+				add(Cmd{Op: "prewrite", Txn: ti, Start: t.start, Prim: k, TTL: 3000, Keys: []string{k}, Ops: []string{"put"}, Vals: []string{g.val()}, Acts: []int{0}, MinC: t.start + 1})
+				add(Cmd{Op: "rollback", Txn: ti, Start: t.start, Keys: []string{k}})
+				continue
+			default:
+				add(Cmd{Op: "prewrite", Txn: ti, Start: t.start, Prim: k, TTL: 3000, Keys: []string{k}, Ops: []string{kind}, Vals: []string{g.val()}, Acts: []int{0}, MinC: t.start + 1})
+			}
+			t.commit = g.ts()
+			cts = append(cts, t.commit)
+			add(Cmd{Op: "commit", Txn: ti, Start: t.start, Keys: []string{k}, TS: t.commit})
+		}
+		sp := g.ts()
+		if len(cts) > 0 && r.Intn(2) == 0 {
+			sp = cts[r.Intn(len(cts))] + uint64(r.Intn(3)) - 1
+		}
+		for _, u := range g.txns {
+			if u.start <= sp {
+				u.gcd = true
+			}
+		}
+		add(Cmd{Op: "gc", Txn: -1, TS: sp})
+		rts := g.ts()
+		if rts < sp {
+			rts = sp
+		}
+		add(Cmd{Op: "get", Txn: -1, Keys: []string{k}, TS: rts})
+	}
 	for i := 0; i < n; i++ {
 		c := g.next()
 		at := float64(i)
